@@ -480,6 +480,19 @@ def search(ctx, case, types, every, root_dir, clean_out, lctx, built, own_paths)
                 if q != p:
                     ctx.fail({"kind": "lookup"}, "find_output_path_for_type is not total / disagrees with the yielded path",
                              rep(type=tstr(k), start=kstr(nskey(n)), found=None if q is None else q.as_posix(), path=actual))
+    # -- the documented template filter `type_to_include_path`: total on the tree's types, = the path relative to outDir
+    #    (whatever the spelling of the output directory: relative, through a symbolic link, ...)
+    for t, p in dts:
+        k = tkey(t)
+        want = "/".join([estrop(c) for c in k[0]] + [estrop(short_ver(k)) + ext])
+        try:
+            got_inc = gen.filter_type_to_include_path(t)
+        except Exception as ex:  # noqa: BLE001 - any exception is the finding
+            got_inc = f"raises {type(ex).__name__}: {str(ex)[:120]}"
+        if got_inc != want and not affected(k[0]):
+            ctx.fail({"kind": "type-to-include-path"}, "the template filter type_to_include_path does not give the type's path relative to the output directory",
+                     rep(type=tstr(k), filter_result=got_inc, expected=want, cwd=os.getcwd()))
+        ctx.count("search_type_to_include_path_checked")
     # -- the same relative path when generated and when merely referenced (also from another root)
     for t in types:
         for d in direct_deps(language, t):
@@ -531,6 +544,31 @@ def snapshot(d):
     return out
 
 
+def user_template_run(ctx, case, root, sandbox):
+    """A user template directory (`--templates`) whose only template renders `{{ T | type_to_include_path }}`: a real run
+    (cwd and output directory as in the case) must succeed and every type's file must contain the type's path relative
+    to the output directory.  Overwrites the files of the preceding run, creates no new ones."""
+    from nunavut.jinja import DSDLCodeGenerator
+    tdir = pathlib.Path(sandbox).parent / "user_templates"
+    tdir.mkdir(exist_ok=True)
+    (tdir / "Any.j2").write_text("{{ T | type_to_include_path }}")
+    base = pathlib.PurePosixPath(root.get_support_output_folder().as_posix())
+    try:
+        ug = DSDLCodeGenerator(root, templates_dir=tdir)
+        ug.generate_all(is_dryrun=False)
+    except Exception as ex:  # noqa: BLE001
+        ctx.fail({"kind": "user-template-type-to-include-path"}, "a user template that uses type_to_include_path cannot be generated",
+                 dict(case, error=f"{type(ex).__name__}: {str(ex)[:200]}", cwd=os.getcwd()))
+        return
+    for t, p in root.get_all_datatypes():
+        want = pathlib.PurePosixPath(p.as_posix()).relative_to(base).as_posix()
+        got = pathlib.Path(p).read_text().strip()
+        if got != want:
+            ctx.fail({"kind": "user-template-type-to-include-path"}, "type_to_include_path rendered by a user template is not the path relative to the output directory",
+                     dict(case, type=tstr(tkey(t)), rendered=got, expected=want))
+    ctx.count("real_runs_user_template")
+
+
 def real_run(ctx, case, sandbox, cwd, out_spelled, out_abs, types, root_dir, lctx):
     """A real (non-dry) generation; afterwards everything new below `sandbox` must lie below the output directory and
     be exactly what the dry run announced."""
@@ -543,11 +581,12 @@ def real_run(ctx, case, sandbox, cwd, out_spelled, out_abs, types, root_dir, lct
         root = build_namespace_tree(types, root_dir, out_spelled, lctx)
         g, s = DSDLCodeGenerator(root), SupportGenerator(root)
         announced = [pathlib.Path(p) for p in list(g.generate_all(is_dryrun=True)) + list(s.generate_all(is_dryrun=True))]
-        announced = sorted(os.path.relpath(os.path.abspath(p), sandbox) for p in announced)
+        announced = sorted({os.path.relpath(os.path.realpath(os.path.abspath(p)), os.path.realpath(sandbox)) for p in announced})  # a set: folded names share a file
         aborted = None
         try:
             g.generate_all(is_dryrun=False)
             s.generate_all(is_dryrun=False)
+            user_template_run(ctx, case, root, sandbox)
         except ValueError:
             raise
         except Exception as ex:  # a template that cannot render under this configuration: not C11's subject,
@@ -592,6 +631,14 @@ def write_corpus_universe(base, spec):
     return roots
 
 
+def _symlink_to(d):
+    """`<d>_link` -> `<d>` (created on first use): an absolute output directory that traverses a symbolic link."""
+    link = d.rstrip("/") + "_link"
+    if not os.path.islink(link):
+        os.symlink(d, link)
+    return link
+
+
 def out_spellings(rng, sandbox_work, rel=None):
     """(spelled, clean form the formula uses, absolute location) - relative, absolute, trailing slash, ./, doubled slash."""
     rel = rel or rng.choice(["out", "gen/out", "o.d/x", "out_1"])
@@ -605,6 +652,7 @@ def out_spellings(rng, sandbox_work, rel=None):
         (ab + "/", ab, ab),
         (".", ".", sandbox_work),
         ("", ".", sandbox_work),
+        (os.path.join(_symlink_to(sandbox_work), rel), os.path.join(_symlink_to(sandbox_work), rel), ab),
     ]
 
 
@@ -800,6 +848,66 @@ def run_support_only(ctx, pending):
     shutil.rmtree(ubase, ignore_errors=True)
 
 
+ROOT_SPEC = {"roots": [{"name": "vendor", "files": {
+    "Top.1.0.dsdl": "uint8 x\n@sealed\n", "a/b/Deep.1.0.dsdl": "uint8 x\n@sealed\n", "a/b/Deep.1.1.dsdl": "uint8 x\n@sealed\n",
+    "register/User.2.0.dsdl": "vendor.a.b.Deep.1.0 d\n@sealed\n"}}]}
+
+
+def run_root_spellings(ctx, pending):
+    """The ROOT NAMESPACE directory argument spelled plainly, with a trailing slash, with a trailing `/.`, relative to the
+    working directory, with `..` and as `.` / `./` from inside the directory (the CLI default): the same tree and the same
+    files every time - through the API (tie + predicates) and through the CLI (`python -m nunavut`)."""
+    import subprocess
+    ubase = ctx.scratch / "rootspell"
+    roots = write_corpus_universe(ubase / "dsdl", ROOT_SPEC)
+    rdir = roots[0]["dir"]
+    types = read_root(roots[0])
+    sandbox = ubase / "sandbox"
+    work = sandbox / "work"
+    work.mkdir(parents=True)
+    out_abs = str(work / "out")
+    parent = os.path.dirname(rdir)
+    spellings = [(rdir, None), (rdir + "/", None), (rdir + "/.", None), (rdir + "//", None), ("vendor", parent), ("vendor/", parent),
+                 ("./vendor/.", parent), ("../" + os.path.basename(parent) + "/vendor", parent), (".", rdir), ("./", rdir), ("a/..", rdir)]
+    expected = {}
+    for li, lang in enumerate(LANGS):
+        lctx = make_lctx(lang)
+        language = lctx.get_target_language()
+        for si, (spelled, cwd) in enumerate(spellings):
+            case = {"universe": "root-spelling", "root": "vendor", "lang": lang, "ext": None, "stem": None, "enable_stropping": None,
+                    "outdir": out_abs, "types": [tstr(tkey(t)) for t in types], "refs": [], "root_dir_spelled": spelled,
+                    "cwd": "<tmp>" if cwd is None else ("<parent of the root>" if cwd == parent else "<the root namespace directory>")}
+            old = os.getcwd()
+            os.chdir(cwd or str(work))
+            try:
+                res, built = one_tree(ctx, pending, case, types, [], spelled, out_abs, lctx, with_support=(si % 4 == 0))
+                count_case(ctx, case, types, res, language, lang, None, None, None, out_abs)
+                ctx.count("stream=root-spelling")
+                if built is not None:
+                    search(ctx, case, types, list(types), spelled, out_abs, lctx, built, {})
+                    expected[lang] = sorted(p.as_posix() for _, p in (built[0].get_all_types() if built[1].generate_namespace_types
+                                                                      else built[0].get_all_datatypes()))
+            finally:
+                os.chdir(old)
+            # the CLI with the same spelling (quick: two languages)
+            if ctx.quick and li >= 2:
+                continue
+            env = dict(os.environ, PYTHONPATH=str(common.REPO / "src"), PYTHONDONTWRITEBYTECODE="1")
+            p = subprocess.run([common.PY, "-m", "nunavut", "--target-language", lang, "--outdir", out_abs, "--list-outputs",
+                                "--experimental-languages", "--generate-support", "never", spelled], cwd=cwd or str(work), env=env, capture_output=True, text=True, timeout=120)
+            listed = sorted(x for x in p.stdout.strip().split(";") if x)
+            # the plain spelling through the API is the reference
+            tkeys = [tkey(t) for t in types]
+            strop = lambda x: language.filter_id(x, "path")  # noqa: E731
+            want_types = sorted("/".join([out_abs] + [strop(c) for c in k[0]] + [strop(short_ver(k)) + language.extension]) for k in tkeys)
+            got_types = sorted(x for x in listed if os.path.basename(x) != language.get_config_value("namespace_file_stem", "_") + language.extension)
+            if p.returncode != 0 or got_types != want_types:
+                ctx.fail({"kind": "cli-root-spelling"}, "the CLI does not list one file per type for this spelling of the root namespace directory",
+                         dict(case, rc=p.returncode, listed=listed[:12], expected_type_files=want_types, stderr=p.stderr[-300:]))
+            ctx.count("cli_root_spellings_checked")
+    shutil.rmtree(ubase, ignore_errors=True)
+
+
 def run(ctx: common.Ctx):
     drivers = ctx.prove(["C11"], exes=["nstree"])
     drv = drivers.get("nstree")
@@ -850,6 +958,8 @@ def run(ctx: common.Ctx):
             lap("exhaustive")
             run_support_only(ctx, pending)
             lap("support_only")
+            run_root_spellings(ctx, pending)
+            lap("root_spellings")
         ubase = ctx.scratch / f"u{ui}"
         src = ubase / "dsdl"
         sandbox = ubase / "sandbox"
